@@ -339,6 +339,22 @@ is_prefix(const unsigned char *a, size_t an, const unsigned char *b, size_t bn)
     return an <= bn && (an == 0 || memcmp(a, b, an) == 0);
 }
 
+#include <sys/mman.h>
+struct hdrv { size_t first, calls, total; int misplaced; unsigned char *base; };
+
+static ssize_t
+hdrv_step(struct hdrv *s, const void *buf, size_t n)
+{
+    s->calls++;
+    if ((const unsigned char *)buf != s->base + s->total) s->misplaced = 1;
+    size_t m = (s->calls == 1 && s->first < n) ? s->first : n;
+    s->total += m;
+    return (ssize_t)m;
+}
+
+static ssize_t hsrc_chunk(void *drv, void *buf, size_t n) { return hdrv_step(drv, buf, n); }
+static ssize_t hsnk_chunk(void *drv, const void *buf, size_t n) { return hdrv_step(drv, buf, n); }
+
 static void
 ep_op(int argc, char **argv)
 {
@@ -389,6 +405,27 @@ ep_op(int argc, char **argv)
             print_rc_strict(rc); printf(" calls=%zu", d.sc.calls);
             free(d.got);
         }
+    } else if (strcmp(op, "ep.huge") == 0 && argc == 4) {
+        /* transfer counts beyond 32 bits: a chunk driver that never touches the memory it is handed reports
+         * `first` octets on its first call and everything that is left on the second; the caller's buffer is an
+         * address range only (PROT_NONE).  What is checked: the result is N, the driver moved N in total and
+         * every call was handed buffer + octets moved so far. */
+        size_t first = parse_u64(argv[2]), n = parse_u64(argv[3]);
+        unsigned char *base = mmap(NULL, n, PROT_NONE, MAP_PRIVATE | MAP_ANONYMOUS | MAP_NORESERVE, -1, 0);
+        bool mapped = base != MAP_FAILED;
+        if (!mapped) base = (unsigned char *)(uintptr_t)0x100000000000ull;
+        struct hdrv d = { .first = first, .base = base };
+        ssize_t rc;
+        if (strcmp(argv[1], "get") == 0) {
+            Source src; chunk_source_init(&src, hsrc_chunk, &d);
+            rc = source_get_chunk(&src, base, n);
+        } else {
+            Sink snk; chunk_sink_init(&snk, hsnk_chunk, &d);
+            rc = sink_put_chunk(&snk, base, n);
+        }
+        print_rc_strict(rc);
+        printf(" total=%zu calls=%zu placed=%s", d.total, d.calls, d.misplaced ? "false" : "true");
+        if (mapped) munmap(base, n);
     } else if (strcmp(op, "sts") == 0 && argc == 11) {
         struct ssrc sd = { .pos = 0 };
         struct ssnk kd = { .n = 0 };
@@ -631,6 +668,34 @@ lenp_op(int argc, char **argv)
     }
 }
 
+/* ---- SLIP encoder over scripted endpoint drivers (C12 on top of C17) ---- */
+
+static void
+slipx_op(int argc, char **argv)
+{
+    if (strcmp(argv[0], "slipx.enc") == 0 && argc == 7) {
+        struct ssrc sd = { .pos = 0 };
+        struct ssnk kd = { .n = 0 };
+        size_t len; unsigned char *stream = parse_hex(argv[3], &len);     /* exact size */
+        if (!stream || !parse_script(argv[4], &sd.sc) || !parse_script(argv[6], &kd.sc)) { printf("bad-op"); return; }
+        sd.stream = stream; sd.len = len;
+        Source src; mk_source(&src, argv[2], &sd);
+        Sink snk; mk_sink(&snk, argv[5], &kd);
+        RFC1055Context ctx;
+        slip_ctx(&ctx, argv[1], NULL);
+        int rc = rfc1055_encode(&ctx, &src, &snk);
+        for (int view = 0; view < 2; view++) {
+            if (view) printf(" ## ");
+            print_rc_strict(rc);
+            printf(" out="); print_hex(kd.got, kd.n);
+            printf(" consumed=%zu", sd.pos);
+        }
+        free(kd.got); free(stream);
+    } else {
+        printf("bad-op");
+    }
+}
+
 static void
 harness_reset(void)
 {
@@ -639,7 +704,8 @@ harness_reset(void)
 static void
 harness_op(int argc, char **argv)
 {
-    if (strncmp(argv[0], "slip.", 5) == 0) slip_op(argc, argv);
+    if (strncmp(argv[0], "slipx.", 6) == 0) slipx_op(argc, argv);
+    else if (strncmp(argv[0], "slip.", 5) == 0) slip_op(argc, argv);
     else if (strncmp(argv[0], "ep.", 3) == 0 || strcmp(argv[0], "sts") == 0) ep_op(argc, argv);
     else if (strncmp(argv[0], "lenp.", 5) == 0) lenp_op(argc, argv);
     else printf("bad-op");
